@@ -39,6 +39,26 @@ def ntxt(e):
 
 def body_norm(fn):
     parts = []
+    # locals are named by first appearance and parameters by position: the names chosen in either overload do not matter
+    ren = {}
+    pidx = {p["d"]: i for i, p in enumerate(fn.get("params") or []) if "d" in p}
+
+    def rn_all(e):
+        if isinstance(e, dict):
+            if e.get("k") == "Ref" and e.get("dk") == "local":
+                if e["d"] not in ren:
+                    ren[e["d"]] = "v%d" % len(ren)
+                return dict(e, n=ren[e["d"]])
+            if e.get("k") == "Ref" and e.get("d") in pidx:
+                return dict(e, n="p%d" % pidx[e["d"]])
+            return {k: rn_all(v) for k, v in e.items()}
+        if isinstance(e, list):
+            return [rn_all(x) for x in e]
+        return e
+    _ntxt = ntxt
+
+    def ntxt_r(e):
+        return _ntxt(rn_all(e))
 
     def stm(s, ind=0):
         if s is None:
@@ -48,23 +68,23 @@ def body_norm(fn):
             for c in s.get("s", []):
                 stm(c, ind)
         elif k in ("Expr", "Return"):
-            parts.append(("return " if k == "Return" else "") + (ntxt(s.get("e")) if s.get("e") is not None else ""))
+            parts.append(("return " if k == "Return" else "") + (ntxt_r(s.get("e")) if s.get("e") is not None else ""))
         elif k == "Decl":
             for v in s.get("vars", []):
-                parts.append("decl=%s" % (ntxt(v.get("init")) if v.get("init") is not None else ""))
+                parts.append("decl=%s" % (ntxt_r(v.get("init")) if v.get("init") is not None else ""))
         elif k == "If":
-            parts.append("if " + ntxt(s["c"]))
+            parts.append("if " + ntxt_r(s["c"]))
             stm(s.get("t"), ind + 1)
             if s.get("e") is not None:
                 parts.append("else")
                 stm(s.get("e"), ind + 1)
             parts.append("endif")
         elif k in ("For", "While", "Do"):
-            parts.append("loop " + (ntxt(s.get("c")) if s.get("c") is not None else ""))
+            parts.append("loop " + (ntxt_r(s.get("c")) if s.get("c") is not None else ""))
             stm(s.get("b"), ind + 1)
             parts.append("endloop")
         elif k == "RangeFor":
-            parts.append("foreach " + ntxt(s.get("range")))
+            parts.append("foreach " + ntxt_r(s.get("range")))
             stm(s.get("b"), ind + 1)
             parts.append("endloop")
         else:
